@@ -6,7 +6,7 @@ import itertools
 
 from vf import common
 
-KEYS = ['e', 'c', 'a', 'f', 'd', 'b']       # deliberately not in sorted order
+KEYS = ['e', 'c', 'a', 'f', 'h', 'd', 'b', 'g']       # deliberately not in sorted order
 
 
 class Payload:
